@@ -27,6 +27,21 @@ struct Run {
     shift: Duration,
     extra: Option<(u64, Op)>,
     drained_part: bool,
+    /// besides servicing events the driver polls both connections every so many microseconds of
+    /// virtual time (script-free histories only)
+    busy_us: Option<u64>,
+}
+
+fn cfg_of(name: &str) -> crate::sim::PairCfg {
+    match name {
+        "pacing2k" | "pacing20k" => {
+            let mut c = cfg_by_name("default");
+            c.client.pacing_cap = Some(if name == "pacing2k" { 2_000 } else { 20_000 });
+            c.client.name = name.into();
+            c
+        }
+        _ => cfg_by_name(name),
+    }
 }
 
 static DUMP: std::sync::atomic::AtomicBool = std::sync::atomic::AtomicBool::new(false);
@@ -34,13 +49,18 @@ static DUMP: std::sync::atomic::AtomicBool = std::sync::atomic::AtomicBool::new(
 /// Outcome-level rendering used for inserted calls on paced histories: per node the
 /// application events in order, plus loss-recovery counters. Packetization may shift with
 /// pacer rounding; what is delivered, reported and declared lost may not.
-fn semantic_trace(p: &StdPair) -> u64 {
+/// `once`: HandshakeConfirmed is counted once (it is repeated for every retransmitted HANDSHAKE_DONE,
+/// and how many of those arrive depends on the peer's probe timers)
+fn semantic_trace(p: &StdPair, once: bool) -> u64 {
     use std::hash::{Hash, Hasher};
     let mut h = std::collections::hash_map::DefaultHasher::new();
     let mut per_node: Vec<Vec<&String>> = vec![vec![], vec![]];
     for r in &p.w.recs {
         if let Rec::Event { node, ev, .. } = r {
             if *node < 2 {
+                if once && ev == "HandshakeConfirmed" && per_node[*node].iter().any(|e| *e == "HandshakeConfirmed") {
+                    continue;
+                }
                 per_node[*node].push(ev);
             }
         }
@@ -58,6 +78,7 @@ fn semantic_trace(p: &StdPair) -> u64 {
 struct Out {
     sem_lines: Vec<String>,
     sem: u64,
+    sem_once: u64,
     dump: String,
     abs: u64,
     abs_lines: Vec<String>,
@@ -115,7 +136,7 @@ fn run(process_base: Instant, hs: &[Hist], r: &Run) -> Out {
     let h = &hs[r.h];
     let base = process_base + r.shift;
     let res = guarded(|| {
-        let cfg = cfg_by_name(h.cfg);
+        let cfg = cfg_of(h.cfg);
         let mut p = std_pair_pre(base, &cfg, h.wl, ReadMode::default(), |w| {
             w.fates = fates_of(&h.devs, &FATE_ALTS);
             w.hold_drained = r.drained_part;
@@ -128,7 +149,25 @@ fn run(process_base: Instant, hs: &[Hist], r: &Run) -> Out {
             // close, drain, then feed everything again
             script.push((30, Op::Close(CLIENT, 9)));
         }
-        drive(&mut p, &script, 40_000, Duration::from_secs(300));
+        if let Some(us) = r.busy_us {
+            let interval = Duration::from_micros(us);
+            let mut polls = 0u64;
+            while !crate::scen::workload_done(&p) && p.w.t < Duration::from_secs(60) && polls < 3_000_000 {
+                match p.w.next_event() {
+                    Some((at, _)) if at <= p.w.t + interval => {
+                        p.w.step();
+                    }
+                    _ => {
+                        p.w.t += interval;
+                        polls += 1;
+                        crate::scen::apply_op(&mut p, &Op::SpuriousSettle(CLIENT));
+                        crate::scen::apply_op(&mut p, &Op::SpuriousSettle(SERVER));
+                    }
+                }
+            }
+        } else {
+            drive(&mut p, &script, 40_000, Duration::from_secs(300));
+        }
         let mut timeouts = vec![];
         if r.drained_part {
             // run until both sides drained
@@ -170,7 +209,7 @@ fn run(process_base: Instant, hs: &[Hist], r: &Run) -> Out {
         p
     });
     match res {
-        Err(e) => Out { sem_lines: vec![], sem: 0, dump: String::new(), abs: 0, abs_lines: vec![], trace: 0, steps: 0, streak: 0, post_drain: vec![], timeouts_rel: vec![], panic: Some(e) },
+        Err(e) => Out { sem_lines: vec![], sem: 0, sem_once: 0, dump: String::new(), abs: 0, abs_lines: vec![], trace: 0, steps: 0, streak: 0, post_drain: vec![], timeouts_rel: vec![], panic: Some(e) },
         Ok(p) => Out {
             sem_lines: if DUMP.load(std::sync::atomic::Ordering::Relaxed) {
                 let mut v = vec![];
@@ -183,7 +222,8 @@ fn run(process_base: Instant, hs: &[Hist], r: &Run) -> Out {
                 }
                 v
             } else { vec![] },
-            sem: semantic_trace(&p),
+            sem: semantic_trace(&p, false),
+            sem_once: semantic_trace(&p, true),
             dump: if DUMP.load(std::sync::atomic::Ordering::Relaxed) { crate::trace::dump(&p.w) } else { String::new() },
             abs: abstract_trace(&p).0,
             abs_lines: if DUMP.load(std::sync::atomic::Ordering::Relaxed) { abstract_trace(&p).1 } else { vec![] },
@@ -218,6 +258,9 @@ fn histories(thorough: bool) -> Vec<Hist> {
     v.push(mk("lat0", Wl::W2, vec![], vec![], "none"));
     v.push(mk("lat0", Wl::W2, vec![(0, 4), (2, 0), (7, 0)], vec![], "none"));
     v.push(mk("lat0", Wl::W6, vec![(3, 0)], vec![], "none"));
+    // rate-limited senders (the pacer decides when data may leave)
+    v.push(mk("pacing2k", Wl::W1, vec![], vec![], "none"));
+    v.push(mk("pacing20k", Wl::W2, vec![], vec![], "none"));
     // the peer goes silent while connection IDs keep expiring (timers must keep settling)
     v.push(mk("cidlife", Wl::W1, vec![], vec![(30, Op::Blackhole(SERVER))], "server-silent@30"));
     v.push(mk("cidlife", Wl::W2, vec![], vec![(24, Op::Blackhole(CLIENT))], "client-silent@24"));
@@ -246,17 +289,18 @@ pub fn main(args: &Args) -> ! {
     let thorough = args.tier == Tier::Thorough;
     let dl = deadline(if thorough { 1200 } else { 45 });
     let hs = histories(thorough);
-    rep.rule = "Differential runs over a list of input histories H (fault-free baselines of several configurations/workloads incl. Retry, CID rotation, key update, NAT rebinding, migration and unroutable datagrams that draw stateless resets, plus every single-deviation history over the fate alphabet in the first datagrams): (1) H twice -> identical full trace (instant, destination, bytes of every datagram; every event; every timer firing); (2) H with every supplied Instant shifted by 1 s / 1 day / 10 years -> identical trace relative to the base; (3) for EVERY step index j of H a spurious handle_timeout(now) or an extra poll round is inserted -> identical trace; (4) a timer never fires more than 16 consecutive times at one instant; (5) after both sides are drained every datagram of the run is fed again and ten timeouts are delivered -> no transmit, no event, no endpoint event. Non-trivial = a run with a shift or an inserted call; distinct = distinct (history, variant) pairs.".into();
+    rep.rule = "Differential runs over a list of input histories H (fault-free baselines of several configurations/workloads incl. Retry, CID rotation, key update, NAT rebinding, migration and unroutable datagrams that draw stateless resets, plus every single-deviation history over the fate alphabet in the first datagrams): (1) H twice -> identical full trace (instant, destination, bytes of every datagram; every event; every timer firing); (2) H with every supplied Instant shifted by 1 s / 1 day / 10 years -> identical trace relative to the base; (3) for EVERY step index j of H a spurious handle_timeout(now) or an extra poll round is inserted -> identical trace; (4) a timer never fires more than 16 consecutive times at one instant; (3b) script-free histories driven by a busy-polling loop (extra transmit polls every 20/50/100/1000 us of virtual time, incl. rate-limited senders) -> same events and loss counters as the event-driven run; (5) after both sides are drained every datagram of the run is fed again and ten timeouts are delivered -> no transmit, no event, no endpoint event. Non-trivial = a run with a shift or an inserted call; distinct = distinct (history, variant) pairs.".into();
     // baselines
-    let (bres, _) = e3((0..hs.len()).collect::<Vec<_>>(), dl, |&i| run(pbase, &hs, &Run { h: i, shift: Duration::ZERO, extra: None, drained_part: false }));
+    let (bres, _) = e3((0..hs.len()).collect::<Vec<_>>(), dl, |&i| run(pbase, &hs, &Run { h: i, shift: Duration::ZERO, extra: None, drained_part: false, busy_us: None }));
     let base: Vec<(u64, u64)> = bres.iter().map(|(_, o)| (o.trace, o.steps)).collect();
     let base_abs: Vec<u64> = bres.iter().map(|(_, o)| o.abs).collect();
     let base_sem: Vec<u64> = bres.iter().map(|(_, o)| o.sem).collect();
+    let base_once: Vec<u64> = bres.iter().map(|(_, o)| o.sem_once).collect();
     let mut runs = vec![];
     for (i, _) in hs.iter().enumerate() {
-        runs.push(Run { h: i, shift: Duration::ZERO, extra: None, drained_part: false });
+        runs.push(Run { h: i, shift: Duration::ZERO, extra: None, drained_part: false, busy_us: None });
         for sh in [1u64, 86_400, 315_360_000] {
-            runs.push(Run { h: i, shift: Duration::from_secs(sh), extra: None, drained_part: false });
+            runs.push(Run { h: i, shift: Duration::from_secs(sh), extra: None, drained_part: false, busy_us: None });
         }
         // insertion points only for the first histories in quick (they dominate the cost)
         let ins = thorough || i < 34;
@@ -264,13 +308,24 @@ pub fn main(args: &Args) -> ! {
             let steps = base[i].1.min(if thorough { 400 } else { 120 });
             for j in 0..steps {
                 for n in [CLIENT, SERVER] {
-                    runs.push(Run { h: i, shift: Duration::ZERO, extra: Some((j, Op::SpuriousTimeout(n))), drained_part: false });
-                    runs.push(Run { h: i, shift: Duration::ZERO, extra: Some((j, Op::SpuriousSettle(n))), drained_part: false });
+                    runs.push(Run { h: i, shift: Duration::ZERO, extra: Some((j, Op::SpuriousTimeout(n))), drained_part: false, busy_us: None });
+                    runs.push(Run { h: i, shift: Duration::ZERO, extra: Some((j, Op::SpuriousSettle(n))), drained_part: false, busy_us: None });
                 }
             }
         }
         if i < 34 || thorough {
-            runs.push(Run { h: i, shift: Duration::ZERO, extra: None, drained_part: true });
+            runs.push(Run { h: i, shift: Duration::ZERO, extra: None, drained_part: true, busy_us: None });
+        }
+        // a busy-polling driver: extra transmit polls at a fixed cadence between the events
+        let h = &hs[i];
+        if h.script.is_empty() && h.devs.is_empty() && h.cfg != "lat0" && h.cfg != "idle30s" {
+            let paced = h.cfg.starts_with("pacing");
+            for us in [20u64, 50, 100, 1000] {
+                if !thorough && !paced && us != 100 {
+                    continue;
+                }
+                runs.push(Run { h: i, shift: Duration::ZERO, extra: None, drained_part: false, busy_us: Some(us) });
+            }
         }
     }
     let total = runs.len();
@@ -279,11 +334,12 @@ pub fn main(args: &Args) -> ! {
     let mut n_shift = 0u64;
     let mut n_ins = 0u64;
     let mut n_drain = 0u64;
+    let mut n_busy = 0u64;
     for (r, o) in &res {
         rep.evaluations += 1;
         let h = &hs[r.h];
-        let rj = json!({"check":"c20","cfg":h.cfg,"wl":format!("{:?}",h.wl),"devs":h.devs,"script":h.sname,"shift_s":r.shift.as_secs(),"extra":format!("{:?}",r.extra),"drained":r.drained_part});
-        let desc = format!("history cfg={} wl={:?} devs={:?} script={} shift={:?} inserted={:?}", h.cfg, h.wl, h.devs, h.sname, r.shift, r.extra);
+        let rj = json!({"check":"c20","cfg":h.cfg,"wl":format!("{:?}",h.wl),"devs":h.devs,"script":h.sname,"shift_s":r.shift.as_secs(),"extra":format!("{:?}",r.extra),"drained":r.drained_part,"busy_us":r.busy_us});
+        let desc = format!("history cfg={} wl={:?} devs={:?} script={} shift={:?} inserted={:?} busy-polling={:?}", h.cfg, h.wl, h.devs, h.sname, r.shift, r.extra, r.busy_us);
         if let Some(p) = &o.panic {
             rep.violation(Violation { signature: "panic".into(), what: format!("{desc}: panic {p}"), replay: rj.clone() });
             continue;
@@ -299,8 +355,15 @@ pub fn main(args: &Args) -> ! {
             }
             continue;
         }
-        if r.shift != Duration::ZERO || r.extra.is_some() {
+        if r.shift != Duration::ZERO || r.extra.is_some() || r.busy_us.is_some() {
             rep.distinct.insert(hh.finish());
+        }
+        if r.busy_us.is_some() {
+            n_busy += 1;
+            if o.sem_once != base_once[r.h] {
+                rep.violation(Violation { signature: "extra-polls-change-outcome".into(), what: format!("{desc}: events / loss counters differ from the run of the same history without the extra transmit polls (or the workload no longer completes)"), replay: rj.clone() });
+            }
+            continue;
         }
         if o.streak > 16 {
             rep.violation(Violation { signature: "timer-does-not-advance".into(), what: format!("{desc}: a timer fired {} consecutive times at one instant", o.streak), replay: rj.clone() });
@@ -334,7 +397,7 @@ pub fn main(args: &Args) -> ! {
             n_ins += 1;
         }
     }
-    rep.part("differential", json!({"histories": hs.len(), "runs": total, "executed": res.len(), "time_shift_runs": n_shift, "insertion_runs": n_ins, "drained_runs": n_drain, "capped": capped}));
+    rep.part("differential", json!({"histories": hs.len(), "runs": total, "executed": res.len(), "time_shift_runs": n_shift, "insertion_runs": n_ins, "drained_runs": n_drain, "busy_polling_runs": n_busy, "capped": capped}));
     rep.sample(json!({"history":{"cfg":"default","wl":"W2","devs":[[7,0]]},"variant":{"inserted":"SpuriousTimeout(client) at step 31"},"meaning":"the run with datagram #7 dropped is repeated with one extra handle_timeout(now)+poll round on the client after step 31; every later datagram, event and timer must be identical"}));
     rep.assumptions = vec![
         "entropy: EndpointConfig::rng_seed fixed, counter-based ConnectionIdGenerator and initial_dst_cid_provider supplied by the harness (the built-in generators draw from the OS RNG by design)".into(),
@@ -365,8 +428,8 @@ fn replay(args: &Args) -> ! {
     let pbase = Instant::now();
     DUMP.store(true, std::sync::atomic::Ordering::Relaxed);
     let hs = vec![h];
-    let a = run(pbase, &hs, &Run { h: 0, shift: Duration::ZERO, extra: None, drained_part: false });
-    let b = run(pbase, &hs, &Run { h: 0, shift: Duration::from_secs(r["shift_s"].as_u64().unwrap_or(0)), extra, drained_part: r["drained"].as_bool().unwrap_or(false) });
+    let a = run(pbase, &hs, &Run { h: 0, shift: Duration::ZERO, extra: None, drained_part: false, busy_us: None });
+    let b = run(pbase, &hs, &Run { h: 0, shift: Duration::from_secs(r["shift_s"].as_u64().unwrap_or(0)), extra, drained_part: r["drained"].as_bool().unwrap_or(false), busy_us: r["busy_us"].as_u64() });
     let (la, lb): (Vec<&str>, Vec<&str>) = if r["extra"].as_str().unwrap_or("None") != "None" {
         (a.abs_lines.iter().map(|s| s.as_str()).collect(), b.abs_lines.iter().map(|s| s.as_str()).collect())
     } else {
